@@ -38,6 +38,7 @@ def l3_scripted(ctx, T, rng, n_sessions):
         def make(cb):
             def f(fn, value):
                 S.calls.append((idx, cb, fn, value))
+                S.seen(idx, fn, value)
                 for op in scripts.get(cb, []):
                     if op[0] == "reg":
                         obj.register_update_callback(S._cb(idx, op[1]))
@@ -92,6 +93,11 @@ def l3_scripted(ctx, T, rng, n_sessions):
                         gone.add(op[1])
                     elif op[0] == "reg":
                         gone.discard(op[1])
+            if S.stale:
+                st_ = S.stale[0]
+                what = (f"stale cache inside the callback: told {st_['function']} = {st_['told']} while the attribute still reads {st_['attribute_reads']} "
+                        "(callbacks are invoked after the cache already reflects the value)")
+                S.stale = []
             if what:
                 pass
             elif r.startswith("EXC"):
